@@ -887,6 +887,11 @@ func init() {
 			if tier == "thorough" {
 				maxN = 300
 			}
+			bdepth := 3
+			if tier == "thorough" {
+				bdepth = 4
+			}
+			sh = append(sh, vShard{Name: "meta/builders", Run: func(c *vCtx) { vMetaBuilderShard(c, bdepth) }})
 			sh = append(sh, vShard{Name: "meta/sweep", Run: func(c *vCtx) { vC04Sweep(c, maxN) }})
 			sh = append(sh, vShard{Name: "meta/lists", Run: vC04Lists})
 			sh = append(sh, vShard{Name: "meta/keys", Run: func(c *vCtx) { vC04Keys(c, maxDocs-1) }})
